@@ -1355,6 +1355,10 @@ def install_builtins(reg: Registry):
             nl = SymList(v.len, deep_copy(i, v.last, memo) if v.last is not None else None, v.sum, v.name, v.elem)
             nl.copy_of = v
             return nl
+        if isinstance(v, Sym) and v.tag == "rng":
+            # a random generator is a mutable object: its deep copy is another generator (same state at the time of the copy, separate stream afterwards)
+            c = Sym(z3.Const(fresh("generator_copy"), Misc), "rng", dict(getattr(v, "info", None) or {}, copy_of=v))
+            return c
         return v
 
     reg.deep_copy = deep_copy
